@@ -21,16 +21,17 @@ from vf.tlc import MachineryError, Raw, render_cfg, require_ok, run_tlc, sany
 META = {
     "engine": "conc",
     "text": "TLC model-checks Pool.tla exhaustively (2-3 borrower threads x 1-2 rounds, reaper, close(), max_idle in "
-            "{0,1,2}, a clock crossing idle_timeout, one worker death, borrower scripts clean / abandoned stream / "
-            "off-boundary-with-last-session-closed; actions = the critical sections of _borrow, _return_worker, "
+            "{0,1,2}, a clock crossing idle_timeout, one worker death, 1-2 command keys, borrower scripts clean / "
+            "abandoned stream / off-boundary-with-last-session-closed / call-cut-short-by-a-client-side-exception; actions = the critical sections of _borrow, _return_worker, "
             "_evict_oldest_locked, _reap_expired, close and the unlocked reads around them): the intended design "
             "must satisfy ExclusiveOwnership, IdleBound, HandoutAliveClean.  Interleavings from TLC's state graphs of "
             "the design the pool under test follows (calibrated by two scripted runs) are forced step by step onto "
             "the real WorkerPool + real RpcConnection/proxy/StreamSession + real RpcServer (fake worker processes: "
             "pid, poll(), os.pipe pair) by a deterministic scheduler, plus random walks; every borrower's first call "
-            "echoes a value only it knows.  PoolUse.tla enumerates borrower scripts (abandon after k batches, on_log "
-            "raising at the k-th log in unary / tick / exchange / header / close-drain reads, streams abandoned before "
-            "a cleanly closed one) x max_idle; each runs on the real pool in-process and on real subprocess workers, "
+            "echoes a value only it knows.  PoolUse.tla enumerates borrower scripts (abandon after k batches; on_log "
+            "raising -- a plain Exception, an OSError of its own, a BaseException -- at the k-th log in unary / tick / "
+            "exchange / header / close-drain reads; streams abandoned before a cleanly closed one; server-side errors in "
+            "unary calls, stream init, mid-stream and exchange) x max_idle (x shm_size on/off); each runs on the real pool in-process and on real subprocess workers, "
             "followed by a second borrower.  TLC judges observable histories (PoolMonitor), step traces (PoolTrace) "
             "and table observations (PoolUse!Conforms).",
     "note": "Trusted: the cooperative scheduler (one thread runs between park points: pool-lock acquires, the transport "
@@ -185,15 +186,15 @@ def run(ctx: Ctx) -> None:
         have = {(c["kind"], c["script"], c["pos"], c["exc"]) for c in cases}
         if have != set(PW.all_scripts()):
             raise MachineryError(f"PoolUse.tla rows and driver scripts differ: {sorted(have ^ set(PW.all_scripts()))[:5]}")
-        cases.sort(key=lambda c: (c["script"], c["pos"], c["exc"], c["mi"]))
+        cases.sort(key=lambda c: (c["script"], c["pos"], c["exc"], c["mi"], c["shm"]))
         if quick:
             pick = {("s_unary", 0, "none", 1), ("s_abandon", 1, "none", 1), ("s_abandon_then_close", 1, "none", 1),
                     ("s_unary_intr", 2, "Exception", 2), ("s_closed_then_hdr_intr", 1, "Exception", 1), ("s_tick_intr", 1, "OSError", 1),
                     ("s_stream_close", 1, "none", 0), ("s_unary_intr", 1, "OSError", 1), ("s_close_intr", 2, "Base", 1),
                     ("s_stream_error", 1, "none", 1)}
-            sub_cases = [c for c in cases if (c["script"], c["pos"], c["exc"], c["mi"]) in pick]
+            sub_cases = [c for c in cases if (c["script"], c["pos"], c["exc"], c["mi"]) in pick and not c["shm"]]
         else:       # every row at max_idle 1; the other max_idle values for the rows without a raising callback
-            sub_cases = [c for c in cases if c["mi"] == 1 or (c["exc"] == "none" and c["pos"] <= 1)]
+            sub_cases = [c for c in cases if not c["shm"] and (c["mi"] == 1 or (c["exc"] == "none" and c["pos"] <= 1))]
         fin, fout = ctx.wd.path / "l2_cases.json", ctx.wd.path / "l2_out.json"
         fin.write_text(json.dumps(sub_cases))
         env = dict(os.environ)
